@@ -53,12 +53,28 @@ def do_run(name, checks, tier, seed):
   meta = json.load(open(os.path.join(d, 'meta.json')))
   checks = checks or [meta['property']]
   assert sh(['git', '-C', '/repo', 'status', '--porcelain', '--untracked-files=no']).stdout.strip() == '', '/repo not clean'
-  r = sh(['git', '-C', '/repo', 'apply', os.path.join(d, 'patch.diff')])
+  # Another run of the checks in progress (vp run) imports /repo too: patching /repo in place
+  # would contaminate it, so use a scratch copy through VERIF_REPO then.
+  mine = os.getpid()
+  others = [l for l in sh(['pgrep', '-af', 'vlib.worker|vlib.framework']).stdout.splitlines()
+            if l.strip() and str(mine) not in l.split()[:1]]
+  scratch = None
+  if others or os.environ.get('SEEDED_SCRATCH'):
+    import tempfile
+    scratch = tempfile.mkdtemp(prefix='seedrun-', dir='/tmp')
+    assert sh(['rsync', '-a', '--exclude', '.git', '/repo/', scratch + '/']).returncode == 0
+    r = sh(['git', 'apply', os.path.join(d, 'patch.diff')], cwd=scratch)
+    if r.returncode != 0:     # not a git directory: fall back to patch(1) semantics of git apply
+      r = sh(['git', 'apply', '--unsafe-paths', '--directory=' + scratch, os.path.join(d, 'patch.diff')], cwd='/')
+  else:
+    r = sh(['git', '-C', '/repo', 'apply', os.path.join(d, 'patch.diff')])
   assert r.returncode == 0, r.stderr
   res = {}
   try:
     for c in checks:
       env = dict(os.environ, VERIF_SEED=str(seed))
+      if scratch:
+        env['VERIF_REPO'] = scratch
       r = sh([os.path.join(V, 'check'), c, '--tier', tier, '--no-evidence'], cwd=V, env=env, timeout=3600)
       lines = r.stdout.strip().splitlines()
       res[c] = {'rc': r.returncode, 'first': lines[:2]}
@@ -67,7 +83,11 @@ def do_run(name, checks, tier, seed):
       for l in lines[:3]:
         print('    ' + l[:260])
   finally:
-    sh(['git', '-C', '/repo', 'checkout', '--', '.'])
+    if scratch:
+      import shutil
+      shutil.rmtree(scratch, ignore_errors=True)
+    else:
+      sh(['git', '-C', '/repo', 'checkout', '--', '.'])
   cb = meta.get('caught_by') or {}
   for c, v in res.items():
     cb['%s/%s' % (c, tier)] = 'caught' if v['rc'] == 1 else 'missed' if v['rc'] == 0 else 'inconclusive'
